@@ -371,6 +371,7 @@ func (w *repoWorld) snapshot0(spawned bool) string {
 type repoGen struct {
 	rng     *rand.Rand
 	nextNum int
+	hist    int
 }
 
 func (g *repoGen) doc(signers []int) *repoDoc {
@@ -385,9 +386,93 @@ func (g *repoGen) doc(signers []int) *repoDoc {
 	return d
 }
 
+// directed returns the opening of a history that steers into one of the multi-step situations the properties talk
+// about (random continuation follows): a refresh that drops / exchanges serials, a failed refresh followed by a good one,
+// a failing first load followed by a good one, a rejected list followed by a genuine one, two issuers sharing serials.
+func (g *repoGen) directed(cfg repoCfg, kind int) []repoOp {
+	rng := g.rng
+	loc := []int{1, 2, 5}[rng.Intn(3)]
+	num := func() int { g.nextNum++; return g.nextNum }
+	hs := func(iss int, ser int64, cands ...int) repoOp {
+		return repoOp{Kind: "hs", Issuer: iss, Serial: ser, CDP: loc, Cands: cands}
+	}
+	serve := func(signer int, serials ...int64) repoOp {
+		return repoOp{Kind: "serve", Loc: loc, Served: "doc", Doc: &repoDoc{Signer: signer, Number: num(), Serials: serials}}
+	}
+	bad := func() repoOp {
+		return repoOp{Kind: "serve", Loc: loc, Served: []string{"garbage", "down"}[(rng.Intn(16)+1)/16]} // rarely down: it costs the loader's 5 x 500 ms per attempt, under the process-wide refresh mutex
+	}
+	tick := repoOp{Kind: "tick"}
+	var ops []repoOp
+	first := func(o repoOp) { ops = append(ops, o) }
+	switch kind % 6 {
+	case 0: // refresh with a list of the same or a smaller size that drops serials
+		full := []int64{10, 11, 12, 13, 255}
+		keep := full[:1+rng.Intn(2)]
+		if rng.Intn(2) == 0 {
+			keep = []int64{full[len(full)-1], 256}[:1+rng.Intn(2)]
+		}
+		ops = append(ops, serve(1, full...))
+		first(hs(7, 11, 1))
+		ops = append(ops, serve(1, keep...), tick)
+		for _, s := range full {
+			ops = append(ops, hs(7, s, 1))
+		}
+	case 1: // failed refresh(es), then a good one
+		ops = append(ops, serve(1, 10, 12))
+		first(hs(7, 10, 1))
+		for k := 0; k <= rng.Intn(3); k++ {
+			ops = append(ops, bad(), tick, hs(7, 10, 1), hs(7, 13, 1))
+		}
+		ops = append(ops, serve(1, 13), tick, hs(7, 13, 1), hs(7, 10, 1))
+	case 2: // failing first load(s), then a good document: it must come into force
+		ops = append(ops, bad())
+		first(hs(7, 10, 1))
+		for k := 0; k < rng.Intn(3); k++ {
+			ops = append(ops, tick, hs(7, 10, 1))
+		}
+		ops = append(ops, serve(1, 10, 256), tick, hs(7, 10, 1), hs(7, 256, 1), hs(7, 12, 1))
+	case 3: // a list nobody can vouch for, then the genuine one
+		ops = append(ops, serve(9, 13, 14))
+		first(hs(7, 13, 1))
+		if rng.Intn(2) == 0 && cfg.Disk {
+			ops = append(ops, repoOp{Kind: "restart"}, hs(7, 13, 1))
+		}
+		ops = append(ops, serve(1, 10), tick, hs(7, 13, 1), hs(7, 10, 1))
+	case 4: // two issuers, the same serials, one location each
+		other := map[int]int{1: 2, 2: 5, 5: 1}[loc]
+		ops = append(ops, serve(1, 10, 11), repoOp{Kind: "serve", Loc: other, Served: "doc", Doc: &repoDoc{Signer: 3, Number: num(), Serials: []int64{11, 12}}})
+		first(hs(7, 10, 1))
+		o := repoOp{Kind: "hs", Issuer: 8, Serial: 12, CDP: other, Cands: []int{3}}
+		first(o)
+		ops = append(ops, hs(7, 12, 1), hs(8, 10, 3), hs(7, 11, 1), hs(8, 11, 3))
+	case 5: // refresh signed by somebody else (sibling key / stranger), then by the right key again
+		ops = append(ops, serve(1, 10))
+		first(hs(7, 10, 1))
+		ops = append(ops, serve([]int{2, 9}[rng.Intn(2)], 11), tick, hs(7, 10, 1), hs(7, 11, 1), serve(1, 12), tick, hs(7, 12, 1), hs(7, 10, 1))
+	}
+	if cfg.Fetch == "background" {
+		// a handshake may spawn a background load: it is awaited by a tick (see snapshot0)
+		var out []repoOp
+		for i, o := range ops {
+			out = append(out, o)
+			if o.Kind == "hs" && o.CDP != 0 && !(i+1 < len(ops) && ops[i+1].Kind == "tick") {
+				out = append(out, tick)
+			}
+		}
+		ops = out
+	}
+	return ops
+}
+
 func (g *repoGen) history(cfg repoCfg, n int) []repoOp {
 	var ops []repoOp
 	rng := g.rng
+	g.hist++
+	if g.hist%3 != 0 {
+		ops = g.directed(cfg, g.hist)
+		n += len(ops) / 2
+	}
 	cdps := []int{1, 2, 5}
 	for len(ops) < n {
 		switch k := rng.Intn(20); {
@@ -454,7 +539,11 @@ func runRepoHistory(r *Run, cfg repoCfg, ops []repoOp, pemEnc bool, record func(
 	}
 	var steps []repoStep
 	for _, o := range ops {
+		tOp := time.Now()
 		obs := w.apply(o)
+		if os.Getenv("VERIF_TIMING") == "ops" && time.Since(tOp) > 500*time.Millisecond {
+			fmt.Fprintf(os.Stdout, "TIMING op %.1fs cfg=%+v %s => %s\n", time.Since(tOp).Seconds(), cfg, o.line(), obs)
+		}
 		record(o.line(), obs)
 		steps = append(steps, repoStep{o, obs})
 	}
